@@ -98,6 +98,26 @@ Theorem C33_gc_and_drain_preserve_abstraction :
 Proof. intros s. split; [apply gc_abs|apply drain_abs]. Qed.
 Print Assumptions C33_gc_and_drain_preserve_abstraction.
 
+(* timeouts: any argument other than None - in particular the falsy 0, 0.0 and timedelta(0) -
+   arms a timer on a queued acquire, and that timer resolves the waiter with TimeoutError;
+   acquire() without timeout never expires *)
+Theorem C33_any_timeout_including_zero_is_a_deadline :
+  forall k v s t, t <> TNone -> s_value s <= 0 ->
+    let w := length (s_futs s) in
+    let s1 := fst (step k v s (Acquire t)) in
+    snd (step k v s (Acquire t)) = EvQueued w
+    /\ nth_error (s_futs s1) w = Some (Pending, true)
+    /\ snd (step k v s1 (Fire w)) = EvTimedOut w
+    /\ (exists a, nth_error (s_futs (fst (step k v s1 (Fire w)))) w = Some (TimedOut, a)).
+Proof. exact any_timeout_is_a_deadline. Qed.
+Print Assumptions C33_any_timeout_including_zero_is_a_deadline.
+
+Theorem C33_no_timeout_never_expires :
+  forall k v s w, let s1 := fst (step k v s (Acquire TNone)) in
+    w = length (s_futs s) -> snd (step k v s1 (Fire w)) = EvNone.
+Proof. exact no_timeout_never_expires. Qed.
+Print Assumptions C33_no_timeout_never_expires.
+
 (* the observable of the model passes the property checker that is applied to the
    implementation's observable on every correspondence case *)
 Theorem C33_model_passes_checker : forall c, check_case c (run_case c) = true.
